@@ -23,3 +23,50 @@ package static
 // a configured name is matched against the whole actual name, ignoring case (empty = anything)
 //@ func regexify
 //@ ensures [wholename] result1 == nil ==> result0 != nil && (forall t string :: matches(result0, t) <==> fullmatch_ci(if name == "" then ".*" else name, t))
+//@ ensures [expr] result1 == nil ==> result0 != nil && restr(result0) == "(?i)^(?:" + (if name == "" then ".*" else name) + ")$"
+
+// ---- from the configured permissions to the access table (property C07) ----
+
+// one table entry is the compiled form of one configured permission (a blank name stands for any name; the code refuses a blank
+// wallet name at start-up, which the property does not ask for, so the contract does not either)
+//@ spec nameOrAll(n string) string = if n == "" then ".*" else n
+//@ spec reOf(n string) string = "(?i)^(?:" + n + ")$"
+//@ spec entryOf(p *path, q *checker.Permissions) bool = p != nil && p.wallet != nil && p.account != nil && q != nil && wanOk(q.Path) && restr(p.wallet) == reOf(nameOrAll(wanW(q.Path))) && restr(p.account) == reOf(nameOrAll(wanA(q.Path))) && p.operations == q.Operations
+// the table has the configured clients, and per client the configured permissions in their order
+//@ spec tableOf(a map[string][]*path, perms map[string][]*checker.Permissions) bool = a != nil && (forall c string :: (c in a) <==> (c in perms)) && (forall c string :: c in perms ==> len(a[c]) == len(perms[c])) && (forall c string, k int :: c in perms && 0 <= k && k < len(perms[c]) ==> entryOf(a[c][k], perms[c][k]))
+
+// the decision read off the configuration itself: first bearing operation of the first matching configured path
+//@ spec cfgMatch(q *checker.Permissions, w string, a string) bool = fullmatch_ci(nameOrAll(wanW(q.Path)), w) && fullmatch_ci(nameOrAll(wanA(q.Path)), a)
+//@ spec decideCfg(perms []*checker.Permissions, w string, a string, op string) bool = exists p int, i int :: 0 <= p && p < len(perms) && 0 <= i && i < len(perms[p].Operations) && cfgMatch(perms[p], w, a) && opAllows(perms[p].Operations[i], op) && !opDenies(perms[p].Operations[i], op) && (forall q int, j int :: 0 <= q && q < len(perms) && 0 <= j && j < len(perms[q].Operations) && (q < p || (q == p && j < i)) && cfgMatch(perms[q], w, a) ==> !opAllows(perms[q].Operations[j], op) && !opDenies(perms[q].Operations[j], op))
+
+// an option sets fields of the parameter block; the permission entries it supplies are non-nil (main.startChecker builds each with &checker.Permissions{...})
+//@ func (Parameter).apply
+//@ requires p != nil
+//@ modifies p.logLevel, p.monitor, p.permissions, p.access
+//@ ensures [cfg] forall c string, k int :: c in p.permissions && 0 <= k && k < len(p.permissions[c]) ==> p.permissions[c][k] != nil
+
+//@ func parseAndCheckParameters
+//@ ensures [err] result1 != nil ==> result0 == nil
+//@ ensures [ok] result1 == nil ==> result0 != nil && fresh(result0) && result0.monitor != nil && tableOf(result0.access, result0.permissions)
+//@ ensures [clients] result1 == nil ==> (forall c string :: c in result0.permissions ==> c != "" && len(result0.permissions[c]) > 0)
+//@ loop #1
+//@ invariant [range] 0 <= _n && _n <= len(params)
+//@ invariant [cfg] forall c string, k int :: c in parameters.permissions && 0 <= k && k < len(parameters.permissions[c]) ==> parameters.permissions[c][k] != nil
+//@ loop #2
+//@ invariant [fresh] parameters.access != nil && fresh(parameters.access) && parameters.monitor != nil
+//@ invariant [dom] forall c string :: (c in parameters.access) <==> visited()[c]
+//@ invariant [lens] forall c string :: visited()[c] ==> len(parameters.access[c]) == len(parameters.permissions[c])
+//@ invariant [done] forall c string, k int :: visited()[c] && 0 <= k && k < len(parameters.permissions[c]) ==> entryOf(parameters.access[c][k], parameters.permissions[c][k])
+//@ invariant [alloc] forall c string :: visited()[c] ==> allocated(parameters.access[c])
+//@ invariant [clients] forall c string :: visited()[c] ==> c != "" && len(parameters.permissions[c]) > 0
+//@ loop #3
+//@ invariant [range] 0 <= _n && _n <= len(permissions) && len(paths) == len(permissions) && fresh(paths) && permissions == parameters.permissions[client] && client != "" && len(permissions) > 0
+//@ invariant [built] forall k int :: 0 <= k && k < _n ==> entryOf(paths[k], permissions[k])
+
+//@ func New
+//@ modifies log
+//@ ensures [err] result1 != nil ==> result0 == nil
+//@ ensures [ok] result1 == nil ==> result0 != nil && (exists perms map[string][]*checker.Permissions :: tableOf(result0.access, perms))
+//@ ensures [table] result1 == nil ==> (forall c string, k int :: c in result0.access && 0 <= k && k < len(result0.access[c]) ==> result0.access[c][k] != nil && result0.access[c][k].wallet != nil && result0.access[c][k].account != nil)
+//@ loop #1
+//@ invariant [perms] perms != nil && fresh(perms) && s != nil && fresh(s) && s.access == parameters.access && s.monitor == parameters.monitor
